@@ -15,6 +15,8 @@ func init() {
 			{Scenario: "sketch.seq", Params: js(c18Params{Mode: "increments", Caps: []uint64{8, 9}, MaxLen: maxLen, ResizeTo: -2}), Shards: 2, BudgetS: budget},
 			{Scenario: "sketch.seq", Params: js(c18Params{Mode: "long", Caps: caps}), Shards: 9, BudgetS: budget, Need: []string{"natural-resets"}},
 			{Scenario: "sketch.seq", Params: js(c18Params{Mode: "admit"}), Shards: 4, BudgetS: budget},
+			// key types whose equality is not bitwise (float64: +0.0 == -0.0)
+			{Scenario: "sketch.seq", Params: js(c18Params{Mode: "keytypes", Caps: []uint64{1, 8, 17, 100}, MaxLen: maxLen}), Shards: 4, BudgetS: budget, Need: []string{"keytype-probes"}},
 			// admission inside the eviction loop: every small queue layout, the maximum lowered, evictNodes on the real policy
 			{Scenario: "sketch.seq", Params: js(c18Params{Mode: "evict"}), Shards: 8, BudgetS: budget, Need: []string{"evictions-judged"}},
 			// a table that grows after it has recorded traffic starts a fresh period (many keys, so that periods fill up)
